@@ -33,7 +33,7 @@ ASSUMPTIONS = ['d <= 3 (Liouville dimension <= 9), <= 3 segments per period, G i
                'theorems hold for all sizes and all G >= 1',
                'complete orthonormal Hermitian basis (Pauli / GGM) so that the Liouville representation is the one of C15']
 GS = [1, 2, 3, 5, 16]
-DELTAS = [0.0, 1e-12, 1e-9, 1e-6, 1e-3]
+DELTAS = [0.0, 1e-12, 1e-9, 1e-8, 1e-7, 1e-6, 1e-3]
 REL = 1e-6            # the property's accuracy
 TOL_SAME = 1e-9       # model with the same oracle data vs implementation
 
@@ -113,6 +113,26 @@ def frequency_grid(r, p, nsing):
     return np.array(om), tags
 
 
+def window_frequency(r, p):
+    """a frequency next to a singular point where |det(1 - T)| just passes the isclose test of the implementation
+    (so the solve branch is taken) although 1 - T is very ill-conditioned; None if there is none"""
+    import numpy.linalg as nla
+    tau = p.tau
+    L = p.total_propagator_liouville
+    n = L.shape[0]
+    th = np.angle(np.linalg.eigvals(L))
+    th = th[np.abs(th) > 1e-6]
+    if not len(th):
+        return None
+    theta = float(r.choice(th))
+    for delta in 10.0 ** np.arange(-14, -6, 0.1):
+        w = (-theta + delta) / tau
+        M = np.eye(n) - util.cexp(np.array([w * tau]))[0] * L
+        if not np.isclose(nla.det(M), 0):
+            return w
+    return None
+
+
 def pack(p):
     return dict(c_opers=np.array(p.c_opers), c_coeffs=np.array(p.c_coeffs), n_opers=np.array(p.n_opers),
                 n_coeffs=np.array(p.n_coeffs), dt=np.array(p.dt), d=int(p.d))
@@ -126,7 +146,7 @@ def _arr(x):
 
 def unpack(s):
     d = int(s['d'])
-    basis = ff.Basis.pauli(1) if d == 2 else ff.Basis.ggm(d)
+    basis = ff.Basis.pauli(1) if d == 2 else (ff.Basis.pauli(2) if d == 4 else ff.Basis.ggm(d))
     return ff.PulseSequence([[o, c, 'c%d' % i] for i, (o, c) in enumerate(zip(_arr(s['c_opers']), _arr(s['c_coeffs']).real))],
                             [[o, c, 'n%d' % i] for i, (o, c) in enumerate(zip(_arr(s['n_opers']), _arr(s['n_coeffs']).real))],
                             _arr(s['dt']).real, basis=basis)
@@ -154,7 +174,7 @@ def scratch_repeated(p, G, omega):
     return q, q.get_control_matrix(omega), q.get_filter_function(omega)
 
 
-def predicates(p, G, omega):
+def predicates(p, G, omega, window=()):
     """property-level checks; returns (list of (observable, signature, detail), observations)"""
     bad = []
     base = gen.fresh(p)
@@ -170,23 +190,32 @@ def predicates(p, G, omega):
         return bad, None
     sB = max(np.abs(Bs).max(), 1e-300)
     sF = max(np.abs(Fs).max(), 1e-300)
-    eB = np.abs(B - Bs).max() / sB
-    if eB > REL:
-        o = int(np.unravel_index(np.abs(B - Bs).argmax(), B.shape)[2])
-        bad.append(('control matrix vs from scratch', 'c04-vs-scratch',
-                    'rel. error %.3g at omega[%d] = %r (G = %d)' % (eB, o, omega[o], G)))
-    eF = np.abs(F - Fs).max() / sF
-    if eF > REL:
-        bad.append(('filter function vs from scratch', 'c04-ff-vs-scratch', 'rel. error %.3g (G = %d)' % (eF, G)))
     # general concatenation of G copies (atomic rule)
     base2 = gen.fresh(p)
     base2.cache_filter_function(omega)
     qc = ff.concatenate([base2] * G, calc_filter_function=True, omega=omega)
     Bc = qc.get_control_matrix(omega)
-    if np.abs(B - Bc).max() / sB > REL:
-        bad.append(('control matrix vs concatenate', 'c04-vs-concatenate', 'rel. error %.3g (G = %d)' % (np.abs(B - Bc).max() / sB, G)))
-    if np.abs(q.get_filter_function(omega) - qc.get_filter_function(omega)).max() / sF > REL:
-        bad.append(('filter function vs concatenate', 'c04-ff-vs-concatenate', 'filter functions differ (G = %d)' % G))
+    Fc = qc.get_filter_function(omega)
+    L0 = np.array(base.total_propagator_liouville)
+    ph0 = np.array(base.get_total_phases(omega))
+
+    def attribute(err_o, obsname, sig):
+        for o in np.nonzero(err_o > REL)[0]:
+            M = np.eye(L0.shape[0]) - ph0[o] * L0
+            cond = np.linalg.cond(M)
+            inv_o = not np.isclose(np.linalg.det(M), 0)
+            if o in window and inv_o and cond > 1e9:
+                bad.append((obsname, 'c04-illconditioned-solve',
+                            'rel. error %.3g at omega = %r (G = %d, d = %d): |det(1 - T)| = %.3g passes the isclose test, '
+                            'cond(1 - T) = %.3g' % (err_o[o], omega[o], G, p.d, abs(np.linalg.det(M)), cond)))
+            else:
+                bad.append((obsname, sig, 'rel. error %.3g at omega[%d] = %r (G = %d)' % (err_o[o], o, omega[o], G)))
+    eB_o = np.abs(B - Bs).max(axis=(0, 1)) / sB
+    eB = float(eB_o.max())
+    attribute(eB_o, 'control matrix vs from scratch', 'c04-vs-scratch')
+    attribute(np.abs(F - Fs).max(axis=(0, 1)) / sF, 'filter function vs from scratch', 'c04-ff-vs-scratch')
+    attribute(np.abs(B - Bc).max(axis=(0, 1)) / sB, 'control matrix vs concatenate', 'c04-vs-concatenate')
+    attribute(np.abs(F - Fc).max(axis=(0, 1)) / sF, 'filter function vs concatenate', 'c04-ff-vs-concatenate')
     # Hamiltonian, duration, total propagator
     for nm in ('c_opers', 'n_opers', 'c_coeffs', 'n_coeffs', 'dt'):
         if not np.array_equal(getattr(q, nm), getattr(qs, nm)) or not np.array_equal(getattr(q, nm), getattr(qc, nm)):
@@ -221,7 +250,7 @@ def tol_lit(O, x):
     return '(dy %s %s%%Z)' % (O, dylit(float(x)))
 
 
-def coq_case(name, p, G, omega, obs, big):
+def coq_case(name, p, G, omega, obs, big, which='all'):
     O = 'IOB' if big else 'IOP'
     base, q = obs['base'], obs['q']
     d = p.d
@@ -265,6 +294,11 @@ def coq_case(name, p, G, omega, obs, big):
         f"tallyC O {tol_lit(O, 1e-9 * max(1.0, np.abs(omega).max() * q.tau))} {cvec_lit(q.get_total_phases(omega))}%Z (map (fun z => cpow O z {G}) ph)",
         f"tallyC O {tol_lit(O, 1e-9 * max(1.0, np.abs(omega).max() * p.tau))} {cvec_lit(ph)}%Z (map (fun w => cexp O (omul O w (tau_get O None dts))) om)",
     ] + res_parts
+    enc = [x for x in parts if 'cm_periodic O %d %d %d %d ph cm L [] []' % (n, na, no, G) in x or 'atomic_repeated' in x]
+    if which == 'enc':
+        parts = enc
+    elif which == 'rest':
+        parts = [x for x in parts if x not in enc]
     body = parts[-1]
     for x in reversed(parts[:-1]):
         body = f"tadd ({x})\n   ({body})"
@@ -288,29 +322,39 @@ def coq_case(name, p, G, omega, obs, big):
 CLASSES = ['generic', 'generic', 'identity', 'degenerate', 'inverse', 'zeroH']
 
 
-def one_case(r, i, thorough, spec=None):
+def one_case(r, i, thorough, spec=None, window_case=False):
     if spec is None:
-        cls = CLASSES[i % len(CLASSES)]
-        d = int(r.choice([2, 2, 3])) if thorough else (3 if i % 5 == 4 else 2)
-        G = GS[i % len(GS)]
-        p = make_pulse(r, cls, d)
-        omega, ftags = frequency_grid(r, p, nsing=4 if thorough else 3)
+        if window_case:
+            cls, d, G = 'window', 4, [5, 16][i % 2]
+            pp, _ = gen.rand_pulse(r, d=4, G=2, basis_kind='pauli', dtc='generic', amp='generic', noise='generic', sens='generic')
+            p = pp
+            w = window_frequency(r, p)
+            omega = np.array([w if w is not None else 0.3, float(r.uniform(-3, 3))])
+            ftags = ['window' if w is not None else 'generic', 'generic']
+        else:
+            cls = CLASSES[i % len(CLASSES)]
+            d = int(r.choice([2, 2, 3])) if thorough else (3 if i % 5 == 4 else 2)
+            G = GS[i % len(GS)]
+            p = make_pulse(r, cls, d)
+            omega, ftags = frequency_grid(r, p, nsing=4 if thorough else 3)
         spec = dict(cls=cls, G=G, pulse=pack(p), omega=omega, ftags=ftags)
     else:
         p = unpack(spec['pulse'])
         omega = _arr(spec['omega']).real
         G = int(spec['G'])
-    bad, obs = predicates(p, G, omega)
+    window = [k for k, t in enumerate(spec['ftags']) if t == 'window']
+    bad, obs = predicates(p, G, omega, window)
     return p, G, omega, spec, bad, obs
 
 
 def run(ctx):
     n = 90 if ctx.thorough else 20
+    nwin = 8 if ctx.thorough else 2
     r = ctx.rng(4)
     cases, classes, failures, samples = [], {}, [], []
     worst = 0.0
-    for i in range(n):
-        p, G, omega, spec, bad, obs = one_case(r, i, ctx.thorough)
+    for i in range(n + nwin):
+        p, G, omega, spec, bad, obs = one_case(r, i, ctx.thorough, window_case=i >= n)
         inp = dict(spec=spec)
         for o, sig, det in bad:
             failures.append(dict(kind='prop', observable=o, signature=sig, detail=det, input=inp))
@@ -318,28 +362,36 @@ def run(ctx):
             key = '%s/d%d/G%d/%s' % (spec['cls'], p.d, G, ft)
             classes[key] = classes.get(key, 0) + 1
         if obs is not None:
-            worst = max(worst, obs['worst'])
-            cases.append((p, G, omega, obs, inp))
+            if spec['cls'] != 'window':
+                worst = max(worst, obs['worst'])
+            cases.append((p, G, omega, obs, inp, spec['cls'] == 'window'))
         if len(samples) < 6:
             samples.append(dict(cls=spec['cls'], d=int(p.d), G=G, omega=[float(x) for x in omega], ftags=spec['ftags'],
                                 rel_err_vs_scratch=None if obs is None else obs['worst']))
     stats = dict(n_inv=0, n_sing=0)
-    defs = []
-    for i, (p, G, omega, obs, _) in enumerate(cases):
-        txt, st = coq_case('c%d' % i, p, G, omega, obs, False)
-        defs.append(('c%d' % i, txt))
+    defs, meta = [], []          # meta: (case index, which)
+    for i, (p, G, omega, obs, _, win) in enumerate(cases):
+        for which in (('rest', 'enc') if win else ('all',)):
+            nm = 'case%d_%s' % (i, which)
+            txt, st = coq_case(nm, p, G, omega, obs, False, which)
+            defs.append((nm, txt))
+            meta.append((i, which))
         for k in st:
             stats[k] += st[k]
     res = ctx.eval_tallies(HEADER, defs, per_file=2)
-    redo = [i for i, x in enumerate(res) if x is None or x[1] > 0]
+    redo = [j for j, x in enumerate(res) if x is None or x[1] > 0]
     if redo:
-        defs2 = [('c%d' % i, coq_case('c%d' % i, cases[i][0], cases[i][1], cases[i][2], cases[i][3], True)[0]) for i in redo]
+        defs2 = []
+        for j in redo:
+            i, which = meta[j]
+            defs2.append((defs[j][0], coq_case(defs[j][0], cases[i][0], cases[i][1], cases[i][2], cases[i][3], True, which)[0]))
         res2 = ctx.eval_tallies(HEADER, defs2, per_file=1)
-        for i, x in zip(redo, res2):
+        for j, x in zip(redo, res2):
             if x is not None:
-                res[i] = x
+                res[j] = x
     agree = undec = 0
-    for i, x in enumerate(res):
+    for j, x in enumerate(res):
+        i, which = meta[j]
         if x is None:
             failures.append(dict(kind='corr', observable='model-evaluation', signature='c04-model-eval',
                                  detail='Coq evaluation of the model failed', input=cases[i][4]))
@@ -347,16 +399,24 @@ def run(ctx):
         agree += x[0]
         undec += x[1]
         if x[2] > 0 or x[1] > 0:
-            failures.append(dict(kind='corr', observable='periodic control matrix / total propagator / tiling vs model and enclosures',
-                                 signature='c04-corr', detail='%d entries outside the model enclosure, %d undecided' % (x[2], x[1]),
-                                 input=cases[i][4]))
-    return dict(evaluations=n, distinct_nontrivial=len(classes),
-                rule='pulse classes {generic, identity total propagator, degenerate, pulse+inverse, zero Hamiltonian} x d x '
-                     'G in {1,2,3,5,16} x frequency classes {w=0, w tau=2 pi k, eigenphase +- delta, generic}; a case is '
-                     'non-trivial if the from-scratch control matrix is not identically zero; distinct = distinct tag tuples',
+            if which == 'enc':
+                failures.append(dict(kind='corr', observable='periodic control matrix vs interval enclosure of the explicit sum / atomic rule',
+                                     signature='c04-illconditioned-solve',
+                                     detail='%d entries farther than %g (relative) from the division-free enclosure at a frequency where '
+                                            'the solve branch is taken on an ill-conditioned system, %d undecided' % (x[2], REL, x[1]),
+                                     input=cases[i][4]))
+            else:
+                failures.append(dict(kind='corr', observable='periodic control matrix / total propagator / tiling vs model and enclosures',
+                                     signature='c04-corr', detail='%d entries outside the model enclosure, %d undecided' % (x[2], x[1]),
+                                     input=cases[i][4]))
+    return dict(evaluations=n + nwin, distinct_nontrivial=len(classes),
+                rule='pulse classes {generic, identity total propagator, degenerate, pulse+inverse, zero Hamiltonian, two-qubit '
+                     'window} x d x G in {1,2,3,5,16} x frequency classes {w=0, w tau=2 pi k, eigenphase +- delta, generic, '
+                     'window: |det| just above the isclose threshold}; a case is non-trivial if the from-scratch control matrix '
+                     'is not identically zero; distinct = distinct tag tuples',
                 samples=samples, failures=failures, classes=classes,
                 corr=dict(entries_agree=agree, entries_undecided=undec, frequencies_solve_branch=stats['n_inv'],
-                          frequencies_explicit_branch=stats['n_sing'], worst_rel_error_vs_scratch=worst))
+                          frequencies_explicit_branch=stats['n_sing'], worst_rel_error_vs_scratch_outside_window=worst))
 
 
 def replay(ctx, rep):
@@ -374,7 +434,8 @@ def search(ctx, broken):
     """a proof obligation broke: look harder (all G, denser near-singular grids) for a failing input"""
     r = ctx.rng(97)
     for i in range(300):
-        p, G, omega, spec, bad, obs = one_case(r, i, True)
+        p, G, omega, spec, bad, obs = one_case(r, i, True, window_case=(i % 4 == 3))
+        bad = [b for b in bad if b[1] != 'c04-illconditioned-solve']
         if bad:
             o, sig, det = bad[0]
             return [dict(kind='prop', observable=o, signature=sig, detail=det, input=dict(spec=spec), broken_obligations=broken)]
